@@ -211,14 +211,14 @@ template <class T> static void mix_p(pbt::Ctx& c) { arc_prop<T, M_MIX>(c); }
 #define PAIR_RULE "pairs of unit quaternions rounded to T (identity / axis / coordinate rotations / rational / random / mixed-magnitude x; y = cos(theta) x + sin(theta) d with d orthogonal to x) at separations theta log-uniform " \
 	"1e-9..pi/2 from parallel and from antipodal, around the linear-fallback threshold sqrt(2 eps) on both sides (factor 0.01..100, +-2^-30), around pi/2 (sign flip), uniform, independent pairs, exactly equal / antipodal / orthogonal; " \
 	"a in {0, 1, 1/2, neighbours within 4 ulps, k/8, uniform [0,1], uniform [-2,3]}; "
-REG2(slerp_p, "slerp", 2500000, 50000000,
+REG2(slerp_p, "slerp", 2500000, 40000000,
      PAIR_RULE "result against the long-double arc point: unit length, in span{x,y}, angle a*theta on the shorter arc to +-y, end points to 12 u per component, finite for every pair, slerp(x,y,a) = +-slerp(y,x,1-a); "
      "non-trivial = theta in (1e-6, pi-1e-6), a not in {0,1}, bound < 1e-2");
-REG2(spin_p, "slerp-spin", 2500000, 50000000,
+REG2(spin_p, "slerp-spin", 2500000, 40000000,
      PAIR_RULE "spin count k in -3..3 (as int and as short); angle a*(theta + k pi) from x on the great circle through x and +-y (shorter arc end point), unit length, in-plane, finite, symmetry up to sign; "
      "below the linear-fallback threshold the formula bound (1/sin^2 theta) decides nothing, there a gross check asks that the spins are not lost when the axis is well determined; "
      "non-trivial = k != 0, theta in (1e-6, pi-1e-6), a not in {0,1}, bound < 1e-2 (or the gross check applied)");
-REG2(mix_p, "mix", 2500000, 50000000,
+REG2(mix_p, "mix", 2500000, 40000000,
      PAIR_RULE "oriented arc from x to y (no sign flip, theta up to pi): unit length, in-plane, angle a*theta, end points to 12 u per component; decided only where the bound (which grows like 1/sin^2 theta next to antipodal inputs) is below 0.05; "
      "non-trivial = theta in (1e-6, pi-1e-6), a not in {0,1}, bound < 1e-2");
 
